@@ -99,6 +99,8 @@ func (r *c10Renderer) val(v *c10Val, inFor bool) string {
 		return off("v")
 	case "a":
 		return off("a")
+	case "ay":
+		return "yv(" + off("a") + ")"
 	case "t":
 		return off("t")
 	case "i":
@@ -237,7 +239,11 @@ func (r *c10Renderer) stmt(s *c10Stmt, ind int, label string, inFor bool) {
 		for i := range s.Cases {
 			c := &s.Cases[i]
 			r.shapes["case:"+c.Dir+":"+c.Form] = true
-			if c.Dir == "send" {
+			if c.Dir == "send" && c.Form == "bya" {
+				// the goroutines started by one go statement share this text: the channel is
+				// chosen by the goroutine's argument (the model guarantees channel == argument)
+				r.line(ind, "case cx[a] <- %s:", r.val(&c.Val, inFor))
+			} else if c.Dir == "send" {
 				r.line(ind, "case c%d <- %s:", c.Ch, r.val(&c.Val, inFor))
 			} else {
 				switch c.Form {
@@ -341,6 +347,12 @@ func c10Render(p *c10Prog, name string) (src string, shapes map[string]bool, err
 		}
 		r.line(1, "_ = c%d", i+1)
 	}
+	cx := "cx := []chan int{nil"
+	for i := range p.Caps {
+		cx += fmt.Sprintf(", c%d", i+1)
+	}
+	r.line(1, cx+"}")
+	r.line(1, "_ = cx")
 	for i := 1; i <= p.Nmu; i++ {
 		r.line(1, "var mu%d sync.Mutex", i)
 	}
@@ -410,6 +422,11 @@ func lg(v int) {
 	lgmu.Lock()
 	lglog = append(lglog, v)
 	lgmu.Unlock()
+}
+
+func yv(v int) int {
+	runtime.Gosched()
+	return v
 }
 
 func b2i(b bool) int {
